@@ -74,10 +74,10 @@ func PrepareCumulatedWeightsMap(
 		for crit, v := range a.Criteria {
 			w, ok := weights[crit]
 			if !ok {
-				weights[crit] = mapper(crit, v)
-			} else {
-				weights[crit] = w + mapper(crit, v)
+				// the alternative carries a value for a criterion which is not (or no longer) under consideration
+				continue
 			}
+			weights[crit] = w + mapper(crit, v)
 		}
 	}
 	return &weights
